@@ -16,6 +16,28 @@ import (
 
 var c08Files = []string{"a.lua", "b.lua"}
 
+// layouts: where the second file lives and how the first one requires it. The flat layout is the default; the dotted
+// layout resolves the module through a directory path (require("sub.b") -> sub/b.lua), the package layout through init.lua.
+type c08Layout struct {
+	name    string
+	files   []string
+	require string
+}
+
+var c08Layouts = []c08Layout{
+	{"flat", []string{"a.lua", "b.lua"}, "local m = require(\"b\")\nprint(m)\n"},
+	{"dotted", []string{"a.lua", "sub/b.lua"}, "local m = require(\"sub.b\")\nprint(m)\n"},
+	{"package", []string{"a.lua", "pkg/init.lua"}, "local m = require(\"pkg\")\nprint(m)\n"},
+}
+
+var c08CurLayout = "flat"
+
+func c08Use(l c08Layout) {
+	c08Files = l.files
+	c08Variants[5].text = l.require
+	c08CurLayout = l.name
+}
+
 // content variants
 var c08Variants = []struct{ name, text string }{
 	{"clean", "local x = 1\nprint(x)\n"},
@@ -44,7 +66,7 @@ func (e c08Event) String() string {
 func c08Alphabet(nvar int) []c08Event {
 	var evs []c08Event
 	for f := range c08Files {
-		for _, k := range []string{"open", "save", "close", "delete"} {
+		for _, k := range []string{"open", "save", "save-unwatched", "close", "delete"} {
 			evs = append(evs, c08Event{k, f, 0})
 		}
 		for _, k := range []string{"change", "create", "extchange"} {
@@ -85,7 +107,7 @@ func (s c08State) step(e c08Event) (c08State, bool) {
 		}
 		n.buf[f] = e.v
 		n.touched[f] = true
-	case "save":
+	case "save", "save-unwatched":
 		if s.buf[f] < 0 || !(s.unsaved(f) || s.touched[f]) {
 			return s, false // the editor only saves a dirty document (possibly with bytes identical to the disk)
 		}
@@ -156,7 +178,7 @@ func c08FreshView(st c08State) (*c08Fresh, error) {
 			open = append(open, c08Files[f])
 		}
 	}
-	key := fmt.Sprint(st.disk, open)
+	key := fmt.Sprint(c08CurLayout, st.disk, open)
 	if v, ok := c08FreshCache[key]; ok {
 		return v, nil
 	}
@@ -221,9 +243,15 @@ func c08Apply(s *drv.Server, st c08State, e c08Event) error {
 			return err
 		}
 		return s.Watched([]drv.FileEvent{{Rel: rel, Type: 2}})
+	case "save-unwatched":
+		// a client that has no file watcher registered for the workspace only sends didSave
+		txt := c08Variants[st.buf[e.file]].text
+		os.WriteFile(path, []byte(txt), 0o644)
+		return s.Save(rel, txt)
 	case "close":
 		return s.CloseDoc(rel)
 	case "create":
+		os.MkdirAll(filepath.Dir(path), 0o755)
 		os.WriteFile(path, []byte(c08Variants[e.v].text), 0o644)
 		return s.Watched([]drv.FileEvent{{Rel: rel, Type: 1}})
 	case "delete":
@@ -280,7 +308,7 @@ func c08Check(s *drv.Server, st c08State) (string, string) {
 	}
 	// no diagnostics for files outside the two
 	for k := range s.Diags {
-		if k != "a.lua" && k != "b.lua" {
+		if k != c08Files[0] && k != c08Files[1] {
 			return "diagnostics-for-unknown-file", k
 		}
 	}
@@ -305,7 +333,7 @@ type c08Init struct {
 	st   c08State
 }
 
-func c08Space(init c08Init, depth, nvar int) *core.Space {
+func c08Space(lay c08Layout, init c08Init, depth, nvar int) *core.Space {
 	alpha := c08Alphabet(nvar)
 	K := int64(len(alpha))
 	n := int64(1)
@@ -313,6 +341,9 @@ func c08Space(init c08Init, depth, nvar int) *core.Space {
 		n *= K
 	}
 	name := fmt.Sprintf("histories-depth%d-from-%s", depth, init.name)
+	if lay.name != "flat" {
+		name += "-" + lay.name + "-module"
+	}
 	decode := func(i int64) []c08Event {
 		evs := make([]c08Event, depth)
 		for k := depth - 1; k >= 0; k-- {
@@ -324,6 +355,7 @@ func c08Space(init c08Init, depth, nvar int) *core.Space {
 	return &core.Space{
 		Name: name, N: n, Chunk: 2000, RecycleEvery: 40,
 		Describe: func(i int64) interface{} {
+			c08Use(lay)
 			var hs []string
 			for _, e := range decode(i) {
 				hs = append(hs, e.String())
@@ -331,6 +363,7 @@ func c08Space(init c08Init, depth, nvar int) *core.Space {
 			return map[string]interface{}{"initial_disk": c08DiskFiles(init.st), "history": hs}
 		},
 		Run: func(i int64, r *core.Result) {
+			c08Use(lay)
 			evs := decode(i)
 			// enabledness under the reference client model (no server needed)
 			st := init.st
@@ -373,6 +406,9 @@ func c08Space(init c08Init, depth, nvar int) *core.Space {
 				}
 				r.Outcome(sig)
 				coreS := fmt.Sprintf("%s | from %s | %s", sig, init.name, strings.Join(hs, " "))
+				if lay.name != "flat" {
+					coreS += " | " + lay.name
+				}
 				r.Fail(name, i, sig+":after-"+e.kind, coreS, map[string]interface{}{"failure_core": coreS, "initial_disk": c08DiskFiles(init.st), "history": hs,
 					"disk_now": c08DiskFiles(st), "discrepancy": what, "client_view": s.DiagView()})
 				return
@@ -390,7 +426,7 @@ func init() {
 	core.Register(&core.Check{
 		ID:        "C08",
 		Technique: "explicit-state exploration of event histories: every sequence of client/file events up to the depth bound that a conformant client can produce (reference client model), replayed on a fresh real server; invariant evaluated after every event against a freshly started server on the same disk (differential oracle)",
-		Rule: "alphabet: open/change/save/close/create/delete/external-change on files a.lua, b.lua with content variants {clean, syntax error, unused local, defines g, reads g, requires b}; three initial workspaces; " +
+		Rule: "alphabet: open/change/save (with and without a watched-files event)/close/create/delete/external-change on files a.lua, b.lua (also sub/b.lua required as sub.b, pkg/init.lua required as pkg) with content variants {clean, syntax error, unused local, defines g, reads g, requires b}; three initial workspaces; " +
 			"invariant: files without unsaved edits show exactly the fresh server's diagnostics (and the same definition answers at three positions), a file with an unsaved buffer shows only that buffer's syntax errors if it has any, else the saved non-syntax diagnostics. " +
 			"states = histories whose every state satisfied the invariant; transitions = events executed; non-trivial = sequences producible by the client model (the others are skipped without a server)",
 		Assumptions: []string{
@@ -405,16 +441,23 @@ func init() {
 				{"a-reads-g,b-syntax-error", c08State{disk: [2]int{4, 1}, buf: [2]int{-1, -1}}},
 			}
 			var sp []*core.Space
+			flat := c08Layouts[0]
 			if tier == "thorough" {
 				for _, in := range inits {
-					sp = append(sp, c08Space(in, 1, 6), c08Space(in, 2, 6), c08Space(in, 3, 6), c08Space(in, 4, 6))
+					sp = append(sp, c08Space(flat, in, 1, 6), c08Space(flat, in, 2, 6), c08Space(flat, in, 3, 6), c08Space(flat, in, 4, 6))
 				}
-				sp = append(sp, c08Space(inits[1], 5, 3))
+				sp = append(sp, c08Space(flat, inits[1], 5, 3))
+				for _, lay := range c08Layouts[1:] {
+					sp = append(sp, c08Space(lay, inits[1], 3, 6), c08Space(lay, inits[1], 4, 6))
+				}
 			} else {
 				for _, in := range inits {
-					sp = append(sp, c08Space(in, 1, 6), c08Space(in, 2, 6), c08Space(in, 3, 6))
+					sp = append(sp, c08Space(flat, in, 1, 6), c08Space(flat, in, 2, 6), c08Space(flat, in, 3, 6))
 				}
-				sp = append(sp, c08Space(inits[1], 4, 3), c08Space(inits[2], 4, 3))
+				sp = append(sp, c08Space(flat, inits[1], 4, 3), c08Space(flat, inits[2], 4, 3))
+				for _, lay := range c08Layouts[1:] {
+					sp = append(sp, c08Space(lay, inits[1], 2, 6), c08Space(lay, inits[1], 3, 6))
+				}
 			}
 			return sp
 		},
